@@ -1132,3 +1132,125 @@ M("benign-replay-status-local", "ALL", "", "execution.py",
             service_client=service_client,
             replay_status=initial_status,
         )""", expect="silent")
+
+# ----------------------------------------------------------------------------- round 3 (rules added after independent mutants)
+M("c07-tolerated-failure-skips-suspend-check", "C07", "R2.suspension-reevaluated-on-branch-end", "concurrency/executor.py",
+  """            exe_state.fail(e)
+            self.counters.fail_task()
+""", """            exe_state.fail(e)
+            self.counters.fail_task()
+            if not self.counters.should_complete():
+                return
+""")
+M("c02-replay-without-policy", "C02", "R5.batch-classified-with-callers-policy", "concurrency/executor.py",
+  "        return BatchResult.from_items(items, self.completion_config)", "        return BatchResult.from_items(items)")
+M("c09-replay-skips-unstarted", "C09", "R1.replay-item-per-input", "concurrency/executor.py",
+  """            checkpoint = execution_state.get_checkpoint_result(operation_id)
+""", """            checkpoint = execution_state.get_checkpoint_result(operation_id)
+            if not checkpoint.is_existent():
+                continue
+""")
+M("c01-branch-context-reused", "C01", "R5.body-rerun-draws-same-ids", "concurrency/executor.py",
+  "        child_context = executor_context.create_child_context(operation_id)\n",
+  """        child_context = getattr(self, "_ctx_cache", {}).get(executable.index)
+        if child_context is None:
+            child_context = executor_context.create_child_context(operation_id)
+            self.__dict__.setdefault("_ctx_cache", {})[executable.index] = child_context
+""")
+M("c08-branch-context-reused", "C08", "R3.fresh-context-per-body-run", "concurrency/executor.py",
+  "        child_context = executor_context.create_child_context(operation_id)\n",
+  """        child_context = getattr(self, "_ctx_cache", {}).get(executable.index)
+        if child_context is None:
+            child_context = executor_context.create_child_context(operation_id)
+            self.__dict__.setdefault("_ctx_cache", {})[executable.index] = child_context
+""")
+M("c10-walk-history-lookup-loop-invariant", "C10", "R3.ancestor-walk-reaches-every-level", "state.py",
+  "                    recorded = self.operations.get(current)", "                    recorded = self.operations.get(parent_id)")
+M("c10-negative-verdict-memo", "C10", "R7.no-stale-negative-verdict", "state.py",
+  """        seen: set[str] = set()
+        current = parent_id
+        while current and current not in seen:""",
+  """        if parent_id in self._parent_to_children.get("<live>", set()):
+            return False
+        self._parent_to_children.setdefault("<live>", set()).add(parent_id)
+        seen: set[str] = set()
+        current = parent_id
+        while current and current not in seen:""")
+M("c13-execution-error-not-recorded", "C13", "R5.failed-poll-is-recorded", "operation/wait_for_condition.py",
+  """        except Exception as e:
+            # Mark as failed""", """        except Exception as e:
+            if isinstance(e, ExecutionError):
+                raise
+            # Mark as failed""")
+M("c15-batch-item-truthiness", "C15", "R9.batch-item-read-as-is", "concurrency/models.py",
+  '            result=data.get("result"),', '            result=data.get("result") or None,')
+M("c16-char-count-vs-byte-limit", "C16", "R5.size-measured-in-bytes", "execution.py",
+  "                serialized_result = json.dumps(result)\n                # large response", "                serialized_result = json.dumps(result, ensure_ascii=False)\n                # large response")
+M("c17-ready-counts-as-completed", "C17", "R4.terminal-set", "state.py",
+  """                    and op.status
+                    in {
+                        OperationStatus.SUCCEEDED,
+                        OperationStatus.FAILED,
+                        OperationStatus.CANCELLED,
+                        OperationStatus.STOPPED,
+                        OperationStatus.TIMED_OUT,
+                    }""", """                    and op.status not in {OperationStatus.STARTED, OperationStatus.PENDING}""")
+M("c18-join-before-stop", "C18", "R4.stop-not-behind-a-wait", "state.py",
+  "    def close(self):\n        self.stop_checkpointing()", "    def close(self):\n        self._checkpoint_queue.join()\n        self.stop_checkpointing()")
+M("c07-unregistered-queue-join", "C07", "R4.blocking-call-registered", "state.py",
+  "    def close(self):\n        self.stop_checkpointing()", "    def close(self):\n        self._checkpoint_queue.join()\n        self.stop_checkpointing()")
+M("c19-reset-while-queued", "C19", "R4.unbreak-only-with-empty-queue", "threading.py",
+  "            if self._waiters:\n                msg = (\n                    \"Cannot reset lock", "            if self._waiters and not self._is_broken:\n                msg = (\n                    \"Cannot reset lock")
+M2("c20-timetuple-ignores-offset", "C20", "R4.timestamp-conversion-preserves-instant", [
+    {"file": "lambda_service.py", "old": "import datetime\n", "new": "import calendar\nimport datetime\n"},
+    {"file": "lambda_service.py", "old": "        return int(dt.timestamp() * 1000) if dt else None",
+     "new": "        return (calendar.timegm(dt.timetuple()) * 1000 + dt.microsecond // 1000) if dt else None"}])
+M("c08-id-hasher-published-early", "C08", "R1.id-function-pure", "context.py",
+  """        step_id = f"{self._parent_id}-{step}" if self._parent_id else str(step)
+        return hashlib.blake2b(step_id.encode()).hexdigest()[:64]""",
+  """        if getattr(self, "_id_hasher", None) is None:
+            self._id_hasher = hashlib.blake2b()
+            if self._parent_id:
+                self._id_hasher.update(f"{self._parent_id}-".encode())
+        hasher = self._id_hasher.copy()
+        hasher.update(str(step).encode())
+        return hasher.hexdigest()[:64]""")
+# benign counterparts: behaviour-preserving, every check must stay silent
+M2("benign-id-prefix-hasher-built-in-init", "ALL", "", [
+    {"file": "context.py", "old": "        self._step_counter: OrderedCounter = OrderedCounter()\n",
+     "new": "        self._step_counter: OrderedCounter = OrderedCounter()\n        self._id_prefix = hashlib.blake2b()\n        if parent_id:\n            self._id_prefix.update(f\"{parent_id}-\".encode())\n"},
+    {"file": "context.py", "old": """        step_id = f"{self._parent_id}-{step}" if self._parent_id else str(step)
+        return hashlib.blake2b(step_id.encode()).hexdigest()[:64]""",
+     "new": """        hasher = self._id_prefix.copy()
+        hasher.update(str(step).encode())
+        return hasher.hexdigest()[:64]"""}], expect="silent")
+M2("benign-response-measured-encoded", "ALL", "", [
+    {"file": "execution.py", "old": "                serialized_result = json.dumps(result)\n                # large response",
+     "new": "                serialized_result = json.dumps(result, ensure_ascii=False)\n                # large response"},
+    {"file": "execution.py", "old": """                if (
+                    serialized_result
+                    and len(serialized_result) > LAMBDA_RESPONSE_SIZE_LIMIT
+                ):
+                    logger.debug(
+                        "Response size (%s bytes) exceeds Lambda limit (%s) bytes). Checkpointing result.",
+                        len(serialized_result),
+                        LAMBDA_RESPONSE_SIZE_LIMIT,
+                    )
+                    success_operation""", "new": """                if (
+                    serialized_result
+                    and len(serialized_result.encode("utf-8")) > LAMBDA_RESPONSE_SIZE_LIMIT
+                ):
+                    success_operation"""}], expect="silent")
+M("benign-policy-alias-in-replay", "ALL", "", "concurrency/executor.py",
+  "        return BatchResult.from_items(items, self.completion_config)", "        policy = self.completion_config\n        return BatchResult.from_items(items, policy)", expect="silent")
+M("benign-terminal-set-as-complement", "ALL", "", "state.py",
+  """                    and op.status
+                    in {
+                        OperationStatus.SUCCEEDED,
+                        OperationStatus.FAILED,
+                        OperationStatus.CANCELLED,
+                        OperationStatus.STOPPED,
+                        OperationStatus.TIMED_OUT,
+                    }""", """                    and op.status not in {OperationStatus.STARTED, OperationStatus.PENDING, OperationStatus.READY}""", expect="silent")
+M("benign-to-millis-via-utctimetuple", "ALL", "", "lambda_service.py",
+  "        return int(dt.timestamp() * 1000) if dt else None", "        return int(round(dt.timestamp(), 3) * 1000) if dt else None", expect="silent")
